@@ -126,7 +126,7 @@ def run_case(args):
                 elif type(e).__name__ == "RunnerTimeout":
                     res["inconclusive"] = "watchdog during plancheck"
                 else:
-                    res["violations"].append(dict(signature="process-dies-while-planning", what=f"{q.sql[:200]}: {e}", sql=q.sql))
+                    res["violations"].append(dict(signature="process-dies-while-planning", what=f"{q.sql[:200]}: {e}", sql=q.sql, setup=stmts, engine=engine))
                 break
             res["evals"] += 1
             v = judge(r, q.sql)
